@@ -279,7 +279,9 @@ def small_entries(thorough=False):
             if 1 + k * n <= 14:
                 out.append(_E('ramlb', 'small', ['ramlb', k, s, '@G0'], ('RamseyWitnessFormula', ['@G0', k, s]), [g]))
         for tot, smart, plant, knuth in [(False, False, False, 0), (True, False, False, 0), (False, True, False, 0), (False, False, True, 0),
-                                         (False, False, False, 2), (False, False, False, 3)]:
+                                         (False, False, False, 2), (False, False, False, 3),
+                                         # flag interactions (round-2 seeded changes C03-m4, C10-m4)
+                                         (False, True, False, 2), (False, True, False, 3), (False, True, True, 0), (True, True, False, 0)]:
             nv = n * (n - 1) // 2 if smart else n * (n - 1)
             if nv <= 12:
                 flags = (['--total'] if tot else []) + (['--smart'] if smart else []) + (['--plant'] if plant else []) + \
@@ -292,8 +294,7 @@ def small_entries(thorough=False):
             out.append(_E('subgraph', 'small', ['subgraph', '-G', '@G0', '-H', '@G1'], ('SubgraphFormula', ['@G0', '@G1']), [g, h], nvars=g['n'] * h['n']))
     # --- ordering principle
     for n in R(0, 5):
-        for tot, smart, plant, knuth in [(False, False, False, 0), (True, False, False, 0), (False, True, False, 0), (False, False, True, 0),
-                                         (False, False, False, 2), (False, False, False, 3), (True, False, True, 0)]:
+        for tot, smart, plant, knuth in [(t_, s_, p_, k_) for t_ in (False, True) for s_ in (False, True) for p_ in (False, True) for k_ in (0, 2, 3)]:
             nv = n * (n - 1) // 2 if smart else n * (n - 1)
             if nv <= 12:
                 flags = (['--total'] if tot else []) + (['--smart'] if smart else []) + (['--plant'] if plant else []) + \
